@@ -16,6 +16,15 @@ to hand its serializer a well-formed history in the order of the packets it retu
 (Lemmas/SrvEmit.lean, CliEmit.lean: `Em`, invariant `Inv`), then Thm A and Thm B.
 Droppable marks: set ONLY on media the application asked to be droppable (`C18_server_input_not_droppable`,
 `C18_server_calls`, `C18_client_calls`).
+"On the expected message streams" — NO INVENTED STREAM IDS (end of the file; Lemmas/SrvMsid.lean, CliMsid.lean: the
+emission walk repeated with a predicate on the message stream id): handling a message, the server emits only on
+stream 0 or on the stream the message arrived on, and every request it records waits on one of those
+(`C18_server_message_streams`); deciding a request it emits only on 0 or on that request's stream
+(`C18_server_decision_streams`); media, metadata and the end-of-playback notice go out on the stream the
+application named, pings on 0 (`C18_server_send_streams`).  The client emits only on 0 or on the stream id carried
+by the server's createStream `_result` (`C18_client_message_streams`), remembers exactly that id
+(`C18_client_active_stream`) and sends deleteStream, metadata and media on it, everything else on 0
+(`C18_client_send_streams`).
 -/
 import Rml.Model.ServerSession
 import Rml.Model.ClientSession
@@ -23,8 +32,11 @@ import Rml.Spec.Chunk
 import Rml.Props.C08
 import Rml.Lemmas.SrvEmit
 import Rml.Lemmas.CliEmit
+import Rml.Lemmas.SrvMsid
+import Rml.Lemmas.CliMsid
+import Rml.Lemmas.WfSteps
 namespace Rml.C18
-open Rml Rml.Chunk Rml.Amf0 Rml.Msgs Rml.Sess
+open Rml Rml.Chunk Rml.Amf0 Rml.Msgs Rml.Sess Rml.Emit
 
 /-- the packet `sendMsg` returns carries exactly the requested droppable flag -/
 theorem sendMsg_drop (ser ser' : Ser.State) (m : RtmpMsg) (ts msid : Nat) (f d : Bool) (p : Ser.Packet)
@@ -375,5 +387,276 @@ def k2Returned : Option (Bool × Bytes) :=
 theorem C18_K2_counterexample :
     (k2Returned.map fun (failed, bytes) => (failed, (Spec.Chunk.decode bytes).isSome)) = some (true, false) := by
   decide +kernel
+
+/-! ## no invented stream ids -/
+
+open Rml.Amf0 Rml.Msgs Rml.Emit
+
+instance msidZero (P : Nat → Prop) : SrvMsid.HasZero (fun n => n = 0 ∨ P n) :=
+  ⟨⟨by show (0 : Nat) < 4294967296; omega, Or.inl rfl⟩⟩
+
+/-- **no invented stream ids, server, one handled message.**  Whatever message `p` (decoded as `m`) the
+    server handles, in whatever state: the packets among the results are exactly a history of the session's
+    serializer in which every message is on message stream 0 or on the stream `p` arrived on; and every
+    request outstanding afterwards was outstanding before or waits on stream 0 (a connection request) or on
+    that same stream. -/
+theorem C18_server_message_streams (s s' : Srv.State) (now : Nat) (p : Msg) (m : RtmpMsg) (rs : List Srv.Res)
+    (hmsid : p.msid < 4294967296) (h : Srv.handleMessage s now p m = .ok (s', rs)) :
+    (∃ xs, Emits s.ser s'.ser xs ∧ xs.map (·.1) = SrvEmit.outs rs ∧ ∀ x ∈ xs, x.2.msid = 0 ∨ x.2.msid = p.msid) ∧
+    (∀ id r, mapGet id s'.reqs = some r →
+      mapGet id s.reqs = some r ∨ SrvEmit.reqSid r = 0 ∨ SrvEmit.reqSid r = p.msid) :=
+  ⟨(SrvMsid.step_handleMessage (K := fun n => n = 0 ∨ n = p.msid) ⟨hmsid, Or.inr rfl⟩ h).1,
+   SrvMsid.handleMessage_reqs h⟩
+
+/-- **… deciding a request**: `accept_request` / `reject_request` on an outstanding request `r` emit only on
+    stream 0 or on the stream `r` waits on (the one its command arrived on, by the theorem above) -/
+theorem C18_server_decision_streams (s s' : Srv.State) (hi : SrvEmit.Inv s) (now id : Nat) (r : Srv.Req)
+    (hr : mapGet id s.reqs = some r) (rs : List Srv.Res) :
+    (Srv.acceptRequest s now id = (s', .ok rs) →
+      ∃ xs, Emits s.ser s'.ser xs ∧ xs.map (·.1) = SrvEmit.outs rs ∧
+        ∀ x ∈ xs, x.2.msid = 0 ∨ x.2.msid = SrvEmit.reqSid r) ∧
+    (∀ code desc, Srv.rejectRequest s now id code desc = (s', .ok rs) →
+      ∃ xs, Emits s.ser s'.ser xs ∧ xs.map (·.1) = SrvEmit.outs rs ∧
+        ∀ x ∈ xs, x.2.msid = 0 ∨ x.2.msid = SrvEmit.reqSid r) := by
+  have hK : ∀ q, mapGet id s.reqs = some q → (fun n => n = 0 ∨ n = SrvEmit.reqSid r) (SrvEmit.reqSid q) := by
+    intro q hq; rw [hr] at hq; simp only [Option.some.injEq] at hq; rw [hq]; exact Or.inr rfl
+  constructor
+  · intro h
+    exact (SrvMsid.acceptRequest_step (K := fun n => n = 0 ∨ n = SrvEmit.reqSid r) hi hK h).2 rs rfl
+  · intro code desc h
+    exact (SrvMsid.rejectRequest_step (K := fun n => n = 0 ∨ n = SrvEmit.reqSid r) hi hK h).2 rs rfl
+
+/-- **… sending**: media, metadata and the end-of-playback notice go out on the stream the application
+    named, a ping request on stream 0 -/
+theorem C18_server_send_streams (s s' : Srv.State) (now sid : Nat) (hsid : sid < 4294967296) (p : Ser.Packet) :
+    (∀ v d ts drop, ts < 4294967296 → Srv.sendMedia s v sid d ts drop = (s', .ok p) →
+      ∃ x, Emits s.ser s'.ser [(p, x)] ∧ x.msid = sid) ∧
+    (∀ md, Srv.sendMetadata s now sid md = (s', .ok p) → ∃ x, Emits s.ser s'.ser [(p, x)] ∧ x.msid = sid) ∧
+    (Srv.finishPlaying s now sid = (s', .ok p) → ∃ x, Emits s.ser s'.ser [(p, x)] ∧ x.msid = sid) ∧
+    (∀ t, Srv.sendPing s now = (s', .ok (p, t)) → ∃ x, Emits s.ser s'.ser [(p, x)] ∧ x.msid = 0) := by
+  refine ⟨?_, ?_, ?_, ?_⟩
+  · intro v d ts drop hts h
+    unfold Srv.sendMedia at h
+    split at h
+    · simp at h
+    · rename_i s2 p2 hs
+      simp only [Prod.mk.injEq, Except.ok.injEq] at h
+      obtain ⟨typ, body, _, hem, _⟩ := WfSteps.srv_send_exact hs (by cases v <;> exact trivial) hts hsid
+      rw [← h.1, ← h.2]; exact ⟨_, hem, rfl⟩
+  · intro md h
+    unfold Srv.sendMetadata at h
+    split at h
+    · simp at h
+    · rename_i s2 p2 hs
+      simp only [Prod.mk.injEq, Except.ok.injEq] at h
+      obtain ⟨typ, body, _, hem, _⟩ := WfSteps.srv_send_exact hs trivial (SrvEmit.epoch_lt now) hsid
+      rw [← h.1, ← h.2]; exact ⟨_, hem, rfl⟩
+  · intro h
+    unfold Srv.finishPlaying at h
+    split at h
+    · dsimp only at h
+      split at h
+      · simp at h
+      · rename_i s2 p2 hs
+        simp only [Prod.mk.injEq, Except.ok.injEq] at h
+        obtain ⟨typ, body, _, hem, _⟩ := WfSteps.srv_send_exact hs trivial (SrvEmit.epoch_lt now) hsid
+        rw [← h.1, ← h.2]; exact ⟨_, hem, rfl⟩
+    · simp at h
+  · intro t h
+    unfold Srv.sendPing at h
+    split at h
+    · simp at h
+    · rename_i s2 p2 hs
+      simp only [Prod.mk.injEq, Except.ok.injEq] at h
+      obtain ⟨typ, body, _, hem, _⟩ := WfSteps.srv_send_exact hs trivial (SrvEmit.epoch_lt now) (by show (0 : Nat) < 4294967296; omega)
+      rw [← h.1, ← h.2.1]; exact ⟨_, hem, rfl⟩
+
+/-- **no invented stream ids, client, one handled message.**  Whatever message the client handles, in whatever
+    state, whenever handling it returns results: the packets among them are exactly a history of the session's
+    serializer in which every message is on stream 0 or on the stream id carried by the message itself (the
+    number in the server's createStream `_result`) -/
+theorem C18_client_message_streams (s s' : Cli.State) (hi : CliEmit.Inv s) (now : Nat) (p : Msg) (m : RtmpMsg)
+    (rs : List Cli.Res) (h : Cli.handleMessage s now p m = (s', .ok rs)) :
+    ∃ xs, Emits s.ser s'.ser xs ∧ xs.map (·.1) = CliEmit.outs rs ∧
+      ∀ x ∈ xs, x.2.msid = 0 ∨
+        ∃ name tid obj n rest, m = .amf0Command name tid obj (.number n :: rest) ∧ x.2.msid = F64.toU32 n :=
+  (CliMsid.handleMessage_step
+    (K := fun k => k = 0 ∨ ∃ name tid obj n rest, m = .amf0Command name tid obj (.number n :: rest) ∧ k = F64.toU32 n)
+    hi (fun name tid obj x rest hm => Or.inr ⟨name, tid, obj, x, rest, hm, rfl⟩) h).2 rs rfl
+
+theorem send_active {a b : Cli.State} {m : RtmpMsg} {ts msid : Nat} {d : Bool} {p : Ser.Packet}
+    (h : Cli.send a m ts msid d = .ok (b, p)) : b.activeStream = a.activeStream := by
+  unfold Cli.send at h
+  split at h
+  · cases h
+  · simp only [Except.ok.injEq, Prod.mk.injEq] at h
+    obtain ⟨h1, _⟩ := h; subst h1; rfl
+
+theorem handleResult_active (s s' : Cli.State) (now tid : Nat) (obj : Val) (args : List Val) (rs : List Cli.Res)
+    (h : Cli.handleResult s now tid obj args = .ok (s', rs)) :
+    s'.activeStream = s.activeStream ∨ ∃ n rest, args = .number n :: rest ∧ s'.activeStream = some (F64.toU32 n) := by
+  unfold Cli.handleResult at h
+  repeat' (first | split at h | (dsimp only at h; split at h))
+  all_goals first
+    | (cases h; done)
+    | (simp only [Except.ok.injEq, Prod.mk.injEq] at h
+       obtain ⟨h1, _⟩ := h
+       subst h1
+       grind [→ send_active])
+
+theorem handleResultErrState_active (s : Cli.State) (tid : Nat) (args : List Val) :
+    (Cli.handleResultErrState s tid args).activeStream = s.activeStream := by
+  unfold Cli.handleResultErrState
+  repeat' (first | split | (dsimp only; split))
+  all_goals rfl
+
+theorem handleError_active (s s' : Cli.State) (tid : Nat) (obj : Val) (args : List Val) (rs : List Cli.Res)
+    (h : Cli.handleError s tid obj args = .ok (s', rs)) : s'.activeStream = s.activeStream := by
+  unfold Cli.handleError at h
+  repeat' (first | split at h | (dsimp only at h; split at h))
+  all_goals first
+    | (cases h; done)
+    | (simp only [Except.ok.injEq, Prod.mk.injEq] at h
+       obtain ⟨h1, _⟩ := h
+       subst h1
+       rfl)
+
+theorem handleOnStatus_active (s s' : Cli.State) (args : List Val) (rs : List Cli.Res)
+    (h : Cli.handleOnStatus s args = .ok (s', rs)) : s'.activeStream = s.activeStream := by
+  unfold Cli.handleOnStatus at h
+  repeat' (first | split at h | (dsimp only at h; split at h))
+  all_goals first
+    | (cases h; done)
+    | (simp only [Except.ok.injEq, Prod.mk.injEq] at h
+       obtain ⟨h1, _⟩ := h
+       subst h1
+       rfl)
+
+/-- … and the active stream a client remembers is, after every handled message and whatever the outcome, the
+    one it had or the id carried by that message -/
+theorem C18_client_active_stream (s : Cli.State) (now : Nat) (p : Msg) (m : RtmpMsg) :
+    (Cli.handleMessage s now p m).1.activeStream = s.activeStream ∨
+    ∃ name tid obj n rest, m = .amf0Command name tid obj (.number n :: rest) ∧
+      (Cli.handleMessage s now p m).1.activeStream = some (F64.toU32 n) := by
+  unfold Cli.handleMessage
+  cases m with
+  | amf0Command name tid obj args =>
+    dsimp only
+    split
+    · split
+      · rename_i s2 rs2 hr
+        rcases handleResult_active s s2 now tid obj args rs2 hr with h | ⟨n, rest, ha, h⟩
+        · exact Or.inl h
+        · exact Or.inr ⟨name, tid, obj, n, rest, by rw [ha], h⟩
+      · exact Or.inl (handleResultErrState_active s tid args)
+    · split
+      · split
+        · rename_i s2 rs2 hr
+          exact Or.inl (handleError_active s s2 tid obj args rs2 hr)
+        · exact Or.inl rfl
+      · split
+        · split
+          · rename_i s2 rs2 hr
+            exact Or.inl (handleOnStatus_active s s2 args rs2 hr)
+          · exact Or.inl rfl
+        · exact Or.inl rfl
+  | userControl ev a b ts =>
+    dsimp only
+    left
+    repeat' (first | split | (dsimp only; split))
+    all_goals first | rfl | (rename_i h; exact send_active h)
+  | setChunkSize n =>
+    dsimp only
+    left
+    repeat' (first | split | (dsimp only; split))
+    all_goals rfl
+  | _ => exact Or.inl rfl
+
+theorem guard_active {s : Cli.State} {sid : Nat} (h : Cli.publishGuard s = .ok sid) : s.activeStream = some sid := by
+  unfold Cli.publishGuard at h
+  split at h
+  · simp at h
+  · split at h
+    · simp at h
+    · rename_i a ha
+      simp only [Except.ok.injEq] at h
+      rw [← h]; exact ha
+
+/-- **… the client's own calls**: connection and stream requests and ping requests go out on stream 0;
+    deleteStream, metadata and media on the active stream — the id the server issued -/
+theorem C18_client_send_streams (s s' : Cli.State) (hi : CliEmit.Inv s) (now : Nat) (p : Ser.Packet) :
+    (∀ app, Cli.requestConnection s now app = (s', .ok (.out p)) → ∃ x, Emits s.ser s'.ser [(p, x)] ∧ x.msid = 0) ∧
+    (∀ pu, Cli.requestStream s now pu = (s', .ok (.out p)) → ∃ x, Emits s.ser s'.ser [(p, x)] ∧ x.msid = 0) ∧
+    (∀ t, Cli.sendPing s now = (s', .ok (p, t)) → ∃ x, Emits s.ser s'.ser [(p, x)] ∧ x.msid = 0) ∧
+    (∀ play, Cli.stop s now play = (s', .ok [.out p]) →
+      ∃ x, Emits s.ser s'.ser [(p, x)] ∧ s.activeStream = some x.msid) ∧
+    (∀ md, Cli.publishMetadata s now md = (s', .ok (.out p)) →
+      ∃ x, Emits s.ser s'.ser [(p, x)] ∧ s.activeStream = some x.msid) ∧
+    (∀ v d ts drop, ts < 4294967296 → Cli.publishMedia s v d ts drop = (s', .ok (.out p)) →
+      ∃ x, Emits s.ser s'.ser [(p, x)] ∧ s.activeStream = some x.msid) := by
+  have z : (0 : Nat) < 4294967296 := by omega
+  refine ⟨?_, ?_, ?_, ?_, ?_, ?_⟩
+  · intro app h
+    unfold Cli.requestConnection at h
+    split at h
+    · simp at h
+    · dsimp only at h
+      split at h
+      · simp at h
+      · rename_i s2 p2 hs
+        simp only [Prod.mk.injEq, Except.ok.injEq, Cli.Res.out.injEq] at h
+        obtain ⟨typ, body, _, hem, _⟩ := WfSteps.cli_send_exact hs trivial (CliEmit.epoch_lt now) z
+        rw [← h.1, ← h.2]; exact ⟨_, hem, rfl⟩
+  · intro pu h
+    unfold Cli.requestStream at h
+    split at h
+    · simp at h
+    · dsimp only at h
+      split at h
+      · simp at h
+      · rename_i s2 p2 hs
+        simp only [Prod.mk.injEq, Except.ok.injEq, Cli.Res.out.injEq] at h
+        obtain ⟨typ, body, _, hem, _⟩ := WfSteps.cli_send_exact hs trivial (CliEmit.epoch_lt now) z
+        rw [← h.1, ← h.2]; exact ⟨_, hem, rfl⟩
+  · intro t h
+    unfold Cli.sendPing at h
+    split at h
+    · simp at h
+    · rename_i s2 p2 hs
+      simp only [Prod.mk.injEq, Except.ok.injEq] at h
+      obtain ⟨typ, body, _, hem, _⟩ := WfSteps.cli_send_exact hs trivial (CliEmit.epoch_lt now) z
+      rw [← h.1, ← h.2.1]; exact ⟨_, hem, rfl⟩
+  · intro play h
+    unfold Cli.stop at h
+    dsimp only at h
+    repeat' split at h
+    all_goals first | (simp at h; done) | skip
+    all_goals (
+      rename_i sid ha _ s2 p2 hs
+      simp only [Prod.mk.injEq, Except.ok.injEq, List.cons.injEq, Cli.Res.out.injEq, and_true] at h
+      obtain ⟨typ, body, _, hem, _⟩ := WfSteps.cli_send_exact hs trivial (CliEmit.epoch_lt now) (hi.2 sid ha)
+      rw [← h.1, ← h.2]; exact ⟨_, hem, ha⟩)
+  · intro md h
+    unfold Cli.publishMetadata at h
+    split at h
+    · simp at h
+    · rename_i sid hg
+      split at h
+      · simp at h
+      · rename_i s2 p2 hs
+        simp only [Prod.mk.injEq, Except.ok.injEq, Cli.Res.out.injEq] at h
+        obtain ⟨typ, body, _, hem, _⟩ := WfSteps.cli_send_exact hs trivial (CliEmit.epoch_lt now) (CliEmit.guard_sid hi hg)
+        rw [← h.1, ← h.2]; exact ⟨_, hem, guard_active hg⟩
+  · intro v d ts drop hts h
+    unfold Cli.publishMedia at h
+    split at h
+    · simp at h
+    · rename_i sid hg
+      split at h
+      · simp at h
+      · rename_i s2 p2 hs
+        simp only [Prod.mk.injEq, Except.ok.injEq, Cli.Res.out.injEq] at h
+        obtain ⟨typ, body, _, hem, _⟩ := WfSteps.cli_send_exact hs (by cases v <;> exact trivial) hts (CliEmit.guard_sid hi hg)
+        rw [← h.1, ← h.2]; exact ⟨_, hem, guard_active hg⟩
 
 end Rml.C18
